@@ -476,7 +476,9 @@ def gen_flags_case(rng):
     rng.shuffle(archived)
     if rng.random() < 0.1:
         archived = [a for a in archived if a != 'l0']
-    return dict(kind='flags', T=T, F=F, B=B, seed=rng.randrange(2 ** 30), extra=extra,
+    # older layout: chunk_info without 'prefix' items, the prefix is the stream's own <cbid>_<stream>_chunk_name key
+    legacy = [nm for nm in ['l0'] + names if rng.random() < 0.3]
+    return dict(kind='flags', T=T, F=F, B=B, seed=rng.randrange(2 ** 30), extra=extra, legacy=legacy,
                 archived=archived if rng.random() < 0.9 else None, upgrade=rng.random() < 0.8,
                 l0_src=rng.choice([None, ['i0_bcp']]),
                 tchunks={k_: list(rand_chunks(rng, T)) for k_ in ('correlator_data', 'flags', 'weights', 'weights_channel')})
@@ -517,9 +519,15 @@ def run_flags(ctx, case, tmpdir):
           'weights': rs.randint(1, 256, (T, F, B)).astype(np.uint8),
           'weights_channel': rs.choice([0.5, 1.0, 2.0], size=(T, F)).astype(np.float32)}
     chunks = {k_: (tuple(case['tchunks'][k_]),) + tuple((n,) for n in a.shape[1:]) for k_, a in l0.items()}
+    def to_telstate(stream, ci):
+        """what is written to telstate: the current layout, or the older one without prefix items"""
+        if stream not in case.get('legacy', []):
+            return ci
+        ts.view(f'{cb}_{stream}')['chunk_name'] = next(iter(ci.values()))['prefix']
+        return {k_: {kk: vv for kk, vv in info.items() if kk != 'prefix'} for k_, info in ci.items()}
     ci0 = put('l0', l0, chunks)
     stored['l0'] = l0
-    ts.view(f'{cb}_l0')['chunk_info'] = ci0
+    ts.view(f'{cb}_l0')['chunk_info'] = to_telstate('l0', ci0)
     entries[f'{cb}_l0_chunk_info'] = ('C', ci0)
     v = ts.view('l0')
     v['stream_type'] = 'sdp.vis'
@@ -539,7 +547,7 @@ def run_flags(ctx, case, tmpdir):
         stored[ex['name']] = arr
         sv = ts.view(ex['name'])
         if ex['own_ci']:
-            ts.view(f"{cb}_{ex['name']}")['chunk_info'] = ci
+            ts.view(f"{cb}_{ex['name']}")['chunk_info'] = to_telstate(ex['name'], ci)
             entries[f"{cb}_{ex['name']}_chunk_info"] = ('C', ci)
         if ex['type'] is not None:
             sv['stream_type'] = ex['type']
@@ -606,6 +614,8 @@ def judge_flags(ctx, case, res, replies):
             (not case['upgrade'] and case['archived'] is not None and False)
         if case['upgrade'] and ex['name'] in arch and (rep == '1') != s_q:
             ctx.advise(f"model qualifies({ex['name']})={rep} but the harness spec says {s_q}")
+    if case.get('legacy'):
+        ctx.tag('flags-legacy-layout-' + ('l0' if case['legacy'] == ['l0'] else 'extra' if 'l0' not in case['legacy'] else 'both'))
     ctx.tag(f'flags-extra-{len(case["extra"])}', 'flags-upgrade-on' if case['upgrade'] else 'flags-upgrade-off',
             f'flags-qualifying-{len(qual)}', 'flags-archived-absent' if case['archived'] is None else 'flags-archived')
     if any(how == 'nosrc' for _, how in qual):
